@@ -13,6 +13,7 @@ DECIDED = [
     "CSTR: a local character array handed to a C-string consumer (sscanf / strtol / strlen ...) is NUL-terminated for every input: zero-initialised, every copy into it stops before its last byte (NUM), and its address goes to no other callee",
     "PROGRESS: every input-driven loop either leaves or strictly moves a cursor/index on every path through its body",
     "LOOP-ERR: in the CBOR decoder's loops over a count declared by the document (array / map items) a failing item leaves the loop in the same iteration, so a truncated document cannot keep the loop running for the declared count",
+    "NOWRAP: no length stored into a cursor / buffer by a parser function can have wrapped (NUM: every subtraction feeding a stored length is covered by a guard)",
     "RECUR: every recursion reachable from a parser entry point carries a depth counter tested against a limit",
     "ERRCHAN: every `return AWS_OP_ERR` of an int-returning parser function follows aws_raise_error or the failure of a callee that raised",
     "ABORT: no abort()/fatal assertion in a parser depends on input bytes (only on API misuse and internal state)",
@@ -23,7 +24,7 @@ DECIDED = [
 from rules import cbor_stream as _cs
 DECIDED = DECIDED + list(_cs.DECIDED)
 NOT_DECIDED = ["internals of the vendored cJSON beyond its nesting limit, depth accounting and stack scratch buffers, and of libcbor beyond the item decoder's reads (STREAM)", "content-dependent facts (which byte values occur where)", "libc calls (strtod, sscanf, strftime)"]
-ASSUMPTIONS = list(LIB_ASSUMPTIONS) + ["aws_byte_cursor_advance/advance_nospec succeed iff len <= cursor->len (C01)", "a real memory view is shorter than PTRDIFF_MAX (used only for PROGRESS)"]
+ASSUMPTIONS = list(LIB_ASSUMPTIONS) + ["the RFC 822 state machine's field start index is not beyond the current index when the month field ends (get_month_number_from_str's start <= end)", "aws_byte_cursor_advance/advance_nospec succeed iff len <= cursor->len (C01)", "a real memory view is shorter than PTRDIFF_MAX (used only for PROGRESS)"]
 
 FILES = ["source/xml_parser.c", "source/uri.c", "source/date_time.c", "source/encoding.c", "source/uuid.c", "source/host_utils.c", "source/json.c", "source/cbor.c"]
 EXTRA_FUNCS = {"source/byte_buf.c": ["s_read_unsigned", "aws_byte_cursor_utf8_parse_u64", "aws_byte_cursor_utf8_parse_u64_hex"]}
@@ -172,7 +173,27 @@ def _chk_decl(num, st, e, args):
     return in_bounds(st, p - 1, ln + 1)[0] == "ok"
 
 
-REQUIRES = {"s_unchecked_append_canonicalized_path_character": (_req_room3, _chk_room3), "s_raw_append_canonicalized_param_character": (_req_room3, _chk_room3),
+def _req_month(num, st):
+    """get_month_number_from_str: the text pointer designates at least as many bytes as its last (end / length) argument says"""
+    p = _param(num, st, 0)
+    ln = _param(num, st, len(num.fn.params) - 1)
+    if len(num.fn.params) == 3:
+        # (text, start, end): start <= end
+        st.add(_param(num, st, 1) - ln)
+    if p is not None and ln is not None and len(p.t) == 1:
+        (m, c), = p.t.items()
+        if m and c == 1:
+            st.extent[m[0]] = ln
+
+
+def _chk_month(num, st, e, args):
+    if not args or args[0] is None or args[-1] is None:
+        return False
+    # (start <= end at the call sites rests on the state machine's bookkeeping of where a field began: ASSUMPTIONS)
+    return in_bounds(st, args[0], args[-1])[0] == "ok"
+
+
+REQUIRES = {"get_month_number_from_str": (_req_month, _chk_month), "s_unchecked_append_canonicalized_path_character": (_req_room3, _chk_room3), "s_raw_append_canonicalized_param_character": (_req_room3, _chk_room3),
             "s_load_node_decl": (_req_decl, _chk_decl)}
 # parameters that designate a caller's local object which nothing else refers to (checked: uri_state_machine)
 NOALIAS = {"s_parse_scheme": ("str",), "s_parse_authority": ("str",), "s_parse_path": ("str",), "s_parse_query_string": ("str",)}
@@ -333,6 +354,20 @@ def analyse(ctx, replace=None, only=None, config="ship", hooks=None):
         if ex is not None:
             R.broken("NUM trace limit in %s: %s" % (f.name, ex))
             continue
+        # NOWRAP (views): a length stored into a cursor / buffer is an exact function of what it was computed from - a wrapped
+        # `len - k` makes the view handed on span (almost) the whole address space
+        wraps = {}
+        for x_ in (x for b_ in f.blocks.values() for x in b_.elems if x["k"] == "ret"):
+            for st in states.get(x_["id"], []):
+                for (line, rec, fld, val) in list(st.notes.get("wrapstore", [])) + list(st.notes.get("wrapstore_local", [])):
+                    # (a length that may go below zero: a difference not covered by a guard; sums of sizes of real objects
+                    # do not reach 2^64 and depend on the caller's invariants - not this rule's business)
+                    if (rec, fld) in (("aws_byte_cursor", "len"), ("aws_byte_buf", "len")) and __import__("re").search(r"(^|[\s(+])-\s*\d", str(val).replace("->", "")):
+                        wraps.setdefault((line, rec, fld), val)
+        for (line, rec, fld), val in sorted(wraps.items()):
+            R.fail("NOWRAP", "%s:%s.%s:line%d" % (f.name, rec, fld, line), "%s:%d in %s()" % (f.file.replace("/repo/", ""), line, f.name),
+                   "the value stored into %s.%s may have wrapped around (%s): the view no longer lies inside the input" % (rec, fld, val))
+        nowrap_fns = locals().get("nowrap_fns", 0) + 1
         for eid, kind, n in sites:
             sts = states.get(eid, [])
             if not sts:
@@ -934,6 +969,8 @@ MUTANTS = [dict(_m, scope={"stream": True}) for _m in _cs.MUTANTS] + [
     {"name": "cbor-array-item-failure-does-not-stop-the-count-loop", "file": "source/cbor.c", "expect": "LOOP-ERR", "scope": {"files": ["source/cbor.c"], "rules": ["LOOP-ERR"]},
      "old": "            for (uint64_t i = 0; i < num_array_item; i++) {\n                /* item */\n                if (aws_cbor_decoder_consume_next_whole_data_item(decoder)) {\n                    return AWS_OP_ERR;\n                }\n            }",
      "new": "            int item_result = AWS_OP_SUCCESS;\n            for (uint64_t i = 0; i < num_array_item; i++) {\n                item_result = aws_cbor_decoder_consume_next_whole_data_item(decoder);\n            }\n            if (item_result) {\n                return AWS_OP_ERR;\n            }"},
+    {"name": "query-value-length-one-too-short", "file": "source/uri.c", "expect": "NOWRAP", "scope": {"files": ["source/uri.c"], "rules": []},
+     "old": "        param->value.len = substr.len - param->key.len - 1;", "new": "        param->value.len = substr.len - param->key.len - 2;"},
     {"name": "ipv4-copy-fills-whole-buffer", "file": "source/host_utils.c", "expect": "CSTR", "scope": {"files": ["source/host_utils.c"], "rules": ["CSTR"]},
      "old": "    if (host.len > AWS_IPV4_STR_LEN - 1) {", "new": "    if (host.len > AWS_IPV4_STR_LEN) {"},
     {"name": "uuid-copy-not-zeroed", "file": "source/uuid.c", "expect": "CSTR", "scope": {"files": ["source/uuid.c"], "rules": ["CSTR"]},
